@@ -40,7 +40,7 @@ SPLITS = {
         [("I1", "1:2:3", [1, 3]), ("I2", "2:2", [2])]],
     4: [[("I1", "1:2", [1, 2]), ("I2", "3", [3]), ("I3", "4", [4])]],
 }
-XGRID = ["0.5", "0.75", "1.25", "2"]  # x column of the .imc table (exact binary fractions)
+XGRID_SMALL = ["0.5", "0.75", "1.25", "2"]  # x column of the .imc table (exact binary fractions)
 
 
 def solve_exact(A, b, r):
@@ -94,10 +94,13 @@ def close(y, ref, abstol):
     return abs(y - float(ref)) <= 2e-9 * abs(float(ref)) + abstol
 
 
-def run_case(A, b, r, si, exe):
-    """returns (ok, key, what, cls)"""
+def run_case(A, b, r, si, exe, split=None, idxtext=None, xgrid=None, xs=None):
+    """returns (ok, key, what, cls).  split/idxtext/xgrid given: index-layout family (the index file text is written verbatim)."""
     n = len(A)
-    split = SPLITS[n][si]
+    layout_family = split is not None
+    if split is None:
+        split = SPLITS[n][si]
+    XGRID = xgrid or XGRID_SMALL
     wd = "imc_case"
     shutil.rmtree(wd, ignore_errors=True)
     os.makedirs(wd)
@@ -107,16 +110,22 @@ def run_case(A, b, r, si, exe):
     with open(os.path.join(wd, "g.imc"), "w") as f:
         for i in range(n):
             f.write("%s %d i\n" % (XGRID[i], b[i]))
-    with open(os.path.join(wd, "g.idx"), "w") as f:
-        for name, rng, rows in split:
-            f.write("%s %s\n" % (name, rng))
+    with open(os.path.join(wd, "g.idx"), "wb") as f:
+        if idxtext is not None:
+            f.write(idxtext.encode())
+        else:
+            for name, rng, rows in split:
+                f.write(("%s %s\n" % (name, rng)).encode())
     p = subprocess.run([exe, "-i", "g.imc", "-g", "g.gmc", "-n", "g.idx", "-r", r], cwd=wd, stdout=subprocess.PIPE,
                        stderr=subprocess.STDOUT, timeout=120)
     out = p.stdout.decode(errors="replace")
     if p.returncode != 0:
-        return False, "imc-solve-exit-status", "csg_imc_solve exited with %d: %s" % (p.returncode, out[-300:].replace("\n", " | ")), None
+        key = "imc-index-legal-layout-rejected" if layout_family else "imc-solve-exit-status"
+        return False, key, "csg_imc_solve exited with %d%s: %s" % (
+            p.returncode, " on index file %r" % idxtext if layout_family else "", out[-300:].replace("\n", " | ")), None
     rr = Fr(r)
-    xs = solve_exact(A, b, rr)
+    if xs is None:
+        xs = solve_exact(A, b, rr)
     atb = max(abs(sum(A[k][i] * b[k] for k in range(n))) for i in range(n))
     abstol = 1e-11 * max(float(atb), 1.0) / float(rr)
     # files
@@ -128,7 +137,8 @@ def run_case(A, b, r, si, exe):
     for name, rng, rows in split:
         tab = read_table(os.path.join(wd, name + ".dpot.imc"))
         if len(tab) != len(rows):
-            return False, "imc-split-rows", "%s.dpot.imc has %d rows, index range %s has %d" % (name, len(tab), rng, len(rows)), None
+            return False, "imc-split-rows", "%s.dpot.imc has %d rows, index range %s has %d%s" % (
+                name, len(tab), rng, len(rows), " (index file %r)" % idxtext if layout_family else ""), None
         for (x, y, flag), row in zip(tab, rows):
             if abs(x - float(XGRID[row - 1])) > 1e-9 or flag != "i":
                 return False, "imc-split-rows", "%s.dpot.imc row for index %d has x=%r flag=%r, expected x=%s flag=i" % (
@@ -138,6 +148,8 @@ def run_case(A, b, r, si, exe):
     if bad:
         gv = [got.get(i + 1) for i in range(n)]
         what = "A=%s b=%s r=%s: written x=%s, exact solution of (A^T A+rI)x=-A^T b is %s" % (A, b, r, gv, [float(v) for v in xs])
+        if layout_family:
+            return False, "imc-split-values", what + " (index file %r)" % idxtext, None
         At = transpose(A)
         if At != A:
             xt = solve_exact(At, b, rr)
@@ -149,7 +161,109 @@ def run_case(A, b, r, si, exe):
             return False, "imc-solve-sign", what + "; the output is the NEGATIVE of the solution", None
         return False, "imc-solve-wrong-solution-" + ("nonsym" if At != A else "sym"), what, None
     cls = (n, si, tuple((v > 0) - (v < 0) for v in xs))
+    if layout_family:
+        return True, "", "tables " + ", ".join("%s=rows %s" % (nme, rows) for nme, _, rows in split), cls
     return True, "", "x=%s" % [float(v) for v in xs], cls
+
+
+# ----------------------------------------------------------------------------- index-file layout family (N = 12)
+N12 = 12
+XGRID12 = [repr(0.25 * (i + 1)) for i in range(N12)]
+MATS12 = [[[((7 * i + 3 * j + i * j) % 5) - 2 for j in range(N12)] for i in range(N12)],
+          [[(1 + (i + 2 * j) % 3) if j >= i else (-1 if j == i - 1 else (2 if (i - j) % 5 == 0 else 0)) for j in range(N12)] for i in range(N12)]]
+B12 = [((5 * i) % 7) - 3 for i in range(N12)]
+# index structures: list of (name, [blocks]) ; rows follow from the blocks
+STRUCTS12 = [
+    [("AA", ["1:4", "9:12"]), ("BB", ["5:8"])],                                   # one interaction owns two blocks around the other
+    [("AA", ["1:2", "5:6", "9:10"]), ("BB", ["3:4", "7:8", "11:12"])],           # three blocks each, interleaved
+    [("AA", ["1", "3", "12"]), ("BB", ["2", "4:11"])],                            # single rows
+    [("AA", ["1:2:11"]), ("BB", ["2:2:12"])],                                     # strided, interleaved row by row
+    [("AA", ["1:3", "7"]), ("BB", ["4:6", "8:9"]), ("CC", ["10:12"])],            # three interactions
+    [("AA", ["1:2:5", "8:12"]), ("BB", ["2", "4", "6:7"])],                       # strided block + block ; rows + block
+    [("AA", ["1:2", "6", "11:12"])],                                              # three blocks, rows 3-5 and 7-10 unassigned
+    [("AA", ["1:6"]), ("BB", ["7:12"])],                                          # baseline: one contiguous block each
+]
+SEPS = [",", ", ", " ,", " , "]
+
+
+def rows_of(blocks):
+    rows = []
+    for bl in blocks:
+        t = [int(v) for v in bl.split(":")]
+        if len(t) == 1:
+            rows.append(t[0])
+        elif len(t) == 2:
+            rows += list(range(t[0], t[1] + 1))
+        else:
+            rows += list(range(t[0], t[2] + 1, t[1]))
+    return rows
+
+
+def ncommas(S):
+    return sum(len(blocks) - 1 for _, blocks in STRUCTS12[S])
+
+
+def render_index(S, lay):
+    """index file text for structure S; lay: dict(sep=str of digits per comma, ns, lead, trail, colon, eol, cmt).
+    Every layout produced here is accepted by the UNCHANGED reader (imcio_read_index: strip #/@ comments, trim, split at the
+    first blank, RangeParser strips blanks; tools::getline drops CR).  Not legal there and therefore not generated: tab as
+    separator, blank or comment-only lines."""
+    out, k = "", 0
+    eol = "\r\n" if lay["eol"] == "crlf" else "\n"
+    for name, blocks in STRUCTS12[S]:
+        bl = [b.replace(":", " : ") for b in blocks] if lay["colon"] else list(blocks)
+        rng = bl[0]
+        for b in bl[1:]:
+            rng += SEPS[int(lay["sep"][k])] + b
+            k += 1
+        out += " " * lay["lead"] + name + " " * lay["ns"] + rng + " " * lay["trail"] + (" # rows of " + name if lay["cmt"] else "") + eol
+    return out
+
+
+def lay_string(M, S, lay):
+    return "fam=idx;M=%d;S=%d;sep=%s;ns=%d;lead=%d;trail=%d;colon=%d;eol=%s;cmt=%d" % (
+        M, S, lay["sep"] or "-", lay["ns"], lay["lead"], lay["trail"], lay["colon"], lay["eol"], lay["cmt"])
+
+
+def parse_lay(s):
+    kv = dict(p.split("=", 1) for p in s.split(";"))
+    lay = dict(sep="" if kv["sep"] == "-" else kv["sep"], ns=int(kv["ns"]), lead=int(kv["lead"]), trail=int(kv["trail"]),
+               colon=int(kv["colon"]), eol=kv["eol"], cmt=int(kv["cmt"]))
+    return int(kv["M"]), int(kv["S"]), lay
+
+
+_xs12 = {}
+
+
+def run_layout_case(M, S, lay, exe):
+    if M not in _xs12:
+        _xs12[M] = solve_exact(MATS12[M], B12, Fr(1))
+    split = [(name, ",".join(blocks), rows_of(blocks)) for name, blocks in STRUCTS12[S]]
+    ok, key, what, cls = run_case(MATS12[M], B12, "1", S, exe, split=split, idxtext=render_index(S, lay), xgrid=XGRID12, xs=_xs12[M])
+    if ok:
+        cls = ("idx", S, lay["sep"], lay["ns"] > 1, lay["lead"] > 0, lay["trail"] > 0, lay["colon"], lay["eol"], lay["cmt"])
+    return ok, key, what, cls
+
+
+def enumerate_layout_cases(tier):
+    base = dict(ns=1, lead=0, trail=0, colon=0, eol="lf", cmt=0)
+    for M in (0, 1):
+        for S in range(len(STRUCTS12)):
+            k = ncommas(S)
+            named = [dict(base, sep="0" * k), dict(base, sep="1" * k), dict(base, sep="2" * k), dict(base, sep="3" * k),
+                     dict(base, sep="0" * k, ns=4), dict(base, sep="0" * k, trail=3), dict(base, sep="0" * k, lead=2),
+                     dict(base, sep="0" * k, eol="crlf"), dict(base, sep="0" * k, colon=1), dict(base, sep="0" * k, cmt=1),
+                     dict(sep="3" * k, ns=3, lead=1, trail=2, colon=1, eol="crlf", cmt=1)]
+            for lay in named:
+                yield M, S, lay
+    if tier == "thorough":   # every per-comma assignment of the four comma layouts x name separator x line end x trailing blanks
+        for S in range(len(STRUCTS12)):
+            k = ncommas(S)
+            for seps in itertools.product("0123", repeat=k):
+                for ns in (1, 3):
+                    for eol in ("lf", "crlf"):
+                        for trail in (0, 2):
+                            yield 0, S, dict(sep="".join(seps), ns=ns, lead=0, trail=trail, colon=0, eol=eol, cmt=0)
 
 
 def enumerate_cases(tier):
@@ -192,8 +306,13 @@ def main():
     a = pybsx.parse()
     exe = pybsx.exe("csg_imc_solve")
     if a.case:
-        A, b, r, si = parse_case(a.case)
-        ok, key, what, cls = run_case(A, b, r, si, exe)
+        if a.case.startswith("fam=idx"):
+            M, S, lay = parse_lay(a.case)
+            print("index file: %r" % render_index(S, lay))
+            ok, key, what, cls = run_layout_case(M, S, lay, exe)
+        else:
+            A, b, r, si = parse_case(a.case)
+            ok, key, what, cls = run_case(A, b, r, si, exe)
         if ok:
             print("case holds:", what)
             return 0
@@ -204,6 +323,13 @@ def main():
               "both index splits; N=3 every A in {0,1}^(3x3) x b-set x r-set x 6 index splits (ranges, single rows, comma list, stride; "
               "1..3 interactions)" + ("; N=3 every other A in {-1,0,1}^(3x3); N=4 every upper/lower triangular A in {0,1}^(4x4) with 3 interactions"
                                       if a.tier == "thorough" else "") +
+              "; index-file layout family: N=12, 2 fixed non-symmetric integer matrices x 8 index structures (an interaction owning 1..3 "
+              "non-contiguous blocks, interleaved between two interactions, single rows, strided blocks, 3 interactions, unassigned rows) x "
+              "11 whitespace layouts legal for the unchanged reader (no blanks; blank after / before / on both sides of every comma; "
+              "several blanks after the name; leading blanks; trailing blanks; CRLF; blanks around ':'; trailing # comment; all combined)" +
+              ("; plus every per-comma assignment of the four comma layouts x name separator {1,3 blanks} x {LF,CRLF} x trailing blanks {0,2}"
+               if a.tier == "thorough" else "") +
+              " (tab separators and blank/comment-only lines are rejected by the unchanged reader and not asserted)"
               ". Oracle: exact rational solution of (A^T A + r I)x = -A^T b from the file contents; each <name>.dpot.imc must hold exactly "
               "the rows of its index range (x column of the .imc file, flag i) with y equal to the solution to the printed 10 digits. "
               "distinct_nontrivial = distinct (N, split, sign pattern of the exact solution)")
@@ -221,6 +347,21 @@ def main():
             R.count("A_nonsymmetric_ok" if transpose(A) != A else "A_symmetric_ok")
             if R.evaluations % 97 == 5:
                 R.sample(cs + " -> " + what)
+    base = i + 1
+    for j, (M, S, lay) in enumerate(enumerate_layout_cases(a.tier)):
+        if not a.mine(base + j):
+            continue
+        R.eval()
+        ok, key, what, cls = run_layout_case(M, S, lay, exe)
+        cs = lay_string(M, S, lay)
+        if not ok:
+            R.fail(key, what, cs)
+            R.count("index_layout_failed")
+        else:
+            R.cls(cls)
+            R.count("index_layout_ok")
+            if j % 41 == 7:
+                R.sample(cs + " (%r) -> %s" % (render_index(S, lay), what))
     shutil.rmtree("imc_case", ignore_errors=True)
     R.write(a.out)
     return 0
